@@ -7,3 +7,7 @@ import "time"
 //
 //go:norace
 func VerifQuotaDump(s *Stream, now time.Time) string { return s.resources.VerifQuotaDump(now) }
+
+// VerifObserveQuotas does what the quota metric callbacks do: read every quota's group
+// counters (without going through an OpenTelemetry reader).
+func VerifObserveQuotas(s *Stream) int { return s.resources.VerifObserveQuotas() }
